@@ -63,6 +63,7 @@ def case_strategy(draw):
     # to three nodes (catalog creation and rank0_node_only restrict themselves to the root's node)
     if draw(st.sampled_from([False, False, True])):
         case["nodes"] = ["n0"] + [draw(st.sampled_from(["n0", "n0", "n1", "n2"])) for _ in range(size - 1)]
+    case["progress"] = kind != "iter" and draw(st.sampled_from([False, False, True]))
     if kind == "iter":
         case["rank0_node_only"] = draw(st.booleans())
         case["items"] = draw(st.lists(st.integers(0, 50), min_size=0, max_size=12))
@@ -143,6 +144,8 @@ def run_case(case):
             ck.cls("wildcard-with>=2-senders")
         if stats.get("overtakes", 0) > 0:
             ck.cls("message-overtaken")
+        if case.get("progress"):
+            ck.cls("progress-display-on")
         if case.get("nodes") and len(set(case["nodes"])) > 1:
             ck.cls("ranks-on-several-nodes")
         if stats.get("sync_sends", 0) > 0 and stats.get("eager_sends", 0) > 0:
@@ -177,7 +180,12 @@ def run_case(case):
             ck.fail(f"unmatched-message:{kind}", f"{resp['leftovers'][:4]} | last events: {resp.get('trace_tail', [])[-8:]}")
         # ---- single-process reference
         try:
-            plain = wl.workload(case, str(tmp / "plain"))
+            import contextlib
+
+            from props.c02_creation import quiet_stderr
+
+            with quiet_stderr() if case.get("progress") else contextlib.nullcontext():
+                plain = wl.workload(case, str(tmp / "plain"))
         except Exception as e:  # noqa
             ck.fail(f"plain-run|{exc_sig(e)}", f"{type(e).__name__}: {e}")
             return ck.results()
